@@ -43,7 +43,7 @@ pub fn expand_self<T: VisitableMut + Clone>(input: &T, to: &Type) -> T {
         fn visit_type_mut(&mut self, i: &mut Type) {
             let tself: Type = parse_quote!(Self);
             if i == &tself {
-                *i = self.to.clone();
+                *i = to_ref_elem_type(self.to);
             } else {
                 visit_type_mut(self, i);
             }
